@@ -4,10 +4,14 @@ import os, subprocess
 from .common import sh, BUILD
 
 
-def run_lines(exe, lines, timeout=600, env=None, args=()):
-    """Feed lines to a line-oriented process; survives crashes (sanitizer
-    aborts, assertions): the case being processed when the process died gets
-    the result 'CRASH <reason>' and the rest is re-fed to a new process."""
+def run_lines(exe, lines, timeout=600, env=None, args=(), stall=None):
+    """Feed lines to a line-oriented process; survives crashes (sanitizer aborts, assertions) and hangs:
+    the case being processed when the process died gets the result 'CRASH <reason>', a case that produces
+    no output line for `stall` seconds (default 30, env VERIF_STALL) gets 'CRASH hang', and the rest is
+    re-fed to a new process."""
+    import select, tempfile, time
+    if stall is None:
+        stall = float(os.environ.get("VERIF_STALL", "30"))
     results = []
     i = 0
     n = len(lines)
@@ -17,29 +21,52 @@ def run_lines(exe, lines, timeout=600, env=None, args=()):
     if env:
         e.update(env)
     crashes = 0
+    t_end = time.time() + max(timeout, 60) * 4
     while i < n:
-        data = "\n".join(lines[i:]) + "\n"
-        try:
-            p = subprocess.run([exe] + list(args), input=data, stdout=subprocess.PIPE, stderr=subprocess.PIPE,
-                               text=True, timeout=timeout, env=e, errors="replace")
-            out, err, rc = p.stdout, p.stderr, p.returncode
-        except subprocess.TimeoutExpired as ex:
-            out = ex.stdout or ""
-            if isinstance(out, bytes):
-                out = out.decode("utf-8", "replace")
-            err, rc = "timeout", 124
-        got = out.split("\n")
-        if got and got[-1] == "":
-            got.pop()
+        with tempfile.TemporaryFile() as fin, tempfile.TemporaryFile() as ferr:
+            fin.write(("\n".join(lines[i:]) + "\n").encode("utf-8", "replace"))
+            fin.seek(0)
+            p = subprocess.Popen([exe] + list(args), stdin=fin, stdout=subprocess.PIPE, stderr=ferr, env=e)
+            buf = b""
+            got = []
+            reason = None
+            last = time.time()
+            fd = p.stdout.fileno()
+            while True:
+                r, _, _ = select.select([fd], [], [], 1.0)
+                now = time.time()
+                if r:
+                    d = os.read(fd, 1 << 20)
+                    if not d:
+                        break
+                    buf += d
+                    if b"\n" in buf:
+                        parts = buf.split(b"\n")
+                        buf = parts[-1]
+                        got.extend(x.decode("utf-8", "replace") for x in parts[:-1])
+                        last = now
+                elif now - last > stall:
+                    reason = "hang (no answer within %ds)" % stall
+                    p.kill()
+                    break
+                if now > t_end:
+                    reason = "timeout"
+                    p.kill()
+                    break
+            p.wait()
+            rc = p.returncode
+            ferr.seek(0)
+            err = ferr.read()[-2000:].decode("utf-8", "replace")
         complete = got[: n - i]
         results.extend(complete)
         i += len(complete)
         if i < n:
-            reason = "rc=%s " % rc + " ".join(err.strip().split("\n")[:3])[:300]
+            if reason is None:
+                reason = "rc=%s " % rc + " ".join(err.strip().split("\n")[:3])[:300]
             results.append("CRASH " + reason)
             i += 1
             crashes += 1
-            if crashes > 200:
+            if crashes > 200 or time.time() > t_end:
                 results.extend(["CRASH too-many"] * (n - i))
                 break
     return results
